@@ -70,7 +70,8 @@ var gLast string
 var gTab = map[string]int{"a": 1}
 func gTwice(x int) int { return 2 * x }
 func gShow(x interface{}) string { return fmt.Sprint("<", x, ">") }
-func gBump(d int) int { gCount += d; return gCount }`
+func gBump(d int) int { gCount += d; return gCount }
+func gSet(b, c int) int { gBase = b; gCount = c; return b }`
 
 func catalogue() []*Template {
 	A := "any"
@@ -176,7 +177,7 @@ func catalogue() []*Template {
 		// ---------------- bodies that use package-level variables and functions (the instance must run in the
 		// environment of the DECLARATION, wherever it is named)
 		funcT("AddBase", []string{"int"}, `func %D%(x $0) $0 { return x + $0(gTwice(gBase)) }`,
-			`func() string { gBase = int(#1:int8#); return fmt.Sprint(%F%(#0:$0#), gBase) }()`).infer().global(),
+			`fmt.Sprint(gSet(int(#1:int8#), 0), %F%(#0:$0#))`).infer().global(),
 		funcT("Tally", []string{A}, `func %D%(v $0) string { gCount += 3; gLast = gShow(v); return fmt.Sprint(gBump(2), gLast) }`,
 			`func() string { gCount = int(#1:int8#); r := %F%(#0:$0#); return fmt.Sprint(r, gCount, gLast) }()`).infer().global(),
 		funcT("Ticker", []string{A}, `func %D%(d $0) func() string { return func() string { gCount++; return fmt.Sprint(d, gCount, gTwice(gBase)) } }`,
